@@ -1647,6 +1647,73 @@ pub(crate) mod verif_hooks {
         }
     }
 
+    impl Endpoint {
+        /// Every routing table, sorted (public read-only view for the `multi` simulator scenario)
+        pub fn verif_view(&self) -> crate::connection::verif::EndpointView {
+            use crate::connection::verif::{EndpointView, MetaView};
+            fn tok(t: &ResetToken) -> [u8; 16] {
+                let mut x = [0u8; 16];
+                x.copy_from_slice(&t[..]);
+                x
+            }
+            let ix = &self.index;
+            let mut v = EndpointView {
+                cid_len: self.local_cid_generator.cid_len(),
+                ..Default::default()
+            };
+            for (k, r) in &ix.connection_ids_initial {
+                v.initial.push(match r {
+                    RouteDatagramTo::Connection(ch) => (k.to_vec(), Some(ch.0), None),
+                    RouteDatagramTo::Incoming(i) => (k.to_vec(), None, Some(*i)),
+                });
+            }
+            v.initial.sort();
+            for (k, ch) in &ix.connection_ids {
+                v.cids.push((k.to_vec(), ch.0));
+            }
+            v.cids.sort();
+            for (k, ch) in &ix.incoming_connection_remotes {
+                v.in_remotes.push((k.remote, ch.0));
+            }
+            v.in_remotes.sort();
+            for (k, ch) in &ix.outgoing_connection_remotes {
+                v.out_remotes.push((*k, ch.0));
+            }
+            v.out_remotes.sort();
+            for (remote, inner) in &ix.connection_reset_tokens.0 {
+                for (t, ch) in inner {
+                    v.reset_tokens.push((*remote, tok(t), ch.0));
+                }
+            }
+            v.reset_tokens.sort();
+            for (h, m) in self.connections.iter() {
+                let mut loc: Vec<(u64, Vec<u8>)> =
+                    m.loc_cids.iter().map(|(s, c)| (*s, c.to_vec())).collect();
+                loc.sort();
+                v.metas.push(MetaView {
+                    handle: h,
+                    server_side: m.side.is_server(),
+                    init_cid: m.init_cid.to_vec(),
+                    cids_issued: m.cids_issued,
+                    loc_cids: loc,
+                    remote: m.addresses.remote,
+                    reset_token: m.reset_token.as_ref().map(|(r, t)| (*r, tok(t))),
+                });
+            }
+            v.incoming_slots = self.incoming_buffers.iter().map(|(i, _)| i).collect();
+            v.incoming_slots.sort();
+            v
+        }
+    }
+
+    impl Incoming {
+        /// (slot in `incoming_buffers`, destination CID of the first Initial = key in
+        /// `connection_ids_initial`) of this pending attempt
+        pub fn verif_route_key(&self) -> (usize, Vec<u8>) {
+            (self.incoming_idx, self.packet.header.dst_cid.to_vec())
+        }
+    }
+
     impl Incoming {
         pub(crate) fn verif_idx(&self) -> usize {
             self.incoming_idx
